@@ -1,5 +1,18 @@
 import PgsVerif.Props.C19
-import PgsVerif.Generated.Code
+import PgsVerif.Generated.Code_parameters_BoolDefault
+import PgsVerif.Generated.Code_parameters_Int
+import PgsVerif.Generated.Code_parameters_IntDefault
+import PgsVerif.Generated.Code_parameters_OutputPath
+import PgsVerif.Generated.Code_parameters_SetBool
+import PgsVerif.Generated.Code_parameters_SetInt
+import PgsVerif.Generated.Code_parameters_SetOutputPath
+import PgsVerif.Generated.Code_parameters_SetStr
+import PgsVerif.Generated.Code_parameters_SetUint
+import PgsVerif.Generated.Code_parameters_Str
+import PgsVerif.Generated.Code_parameters_StrDefault
+import PgsVerif.Generated.Code_parameters_String
+import PgsVerif.Generated.Code_parameters_UintDefault
+import PgsVerif.Generated.Code_parseParameters
 /-!
 # Tie (translated code): the typed accessors of `Parameters`
 
